@@ -208,8 +208,12 @@ class ExprMixin(CallMixin):
                     shapes.add(sh)
                 counts |= g.counts(r)
                 unbounded = unbounded or g.unbounded(r)
-            if base.strs == FS({"0"}) and base.pos is None:
+            if base.strs is not None and "0" in base.strs and base.pos is None:
                 counts.add(0)
+        restricted = {int(x[1:]) for x in (base.strs or ()) if x.startswith("=")}
+        if restricted and not base.empty:
+            counts &= restricted
+            unbounded = False
         if isinstance(node.value, ast.Name):
             ck = self.env.get(node.value.id + "#count")
             if ck is not None and ck.strs is not None:
